@@ -28,7 +28,7 @@ def stages(tier, seed, bins):
             if m in ("tsne", "ms") and N > 22:
                 continue
             cases.append(dict(mode="table", method=m, data="gauss", N=N, D=3, dseed=rnd.randrange(1 << 30), tseed=rnd.randrange(1 << 30),
-                              srand=1, shuffle=1, timeout=900, ticks=200000000))
+                              srand=1, shuffle=1, timeout=240, ticks=200000000))
     for i in range(400 if thorough else 40):
         cases.append(dict(mode="defaults", ctx="defaults", data="gauss", N=8, D=3, dseed=1, tseed=rnd.randrange(1 << 30), timeout=120,
                           ticks=1000000))
